@@ -418,28 +418,40 @@ def install(E):
         return E.mk_bytes(x.items, False, "memoryview")
 
     # ------------------------------------------------------------------ float division lemma
-    def float_trunc(q):
-        """int(a / k): truncating division, valid when the float quotient is exact enough.
-        Side lemma (proved once per divisor in QF_FP over [lo,hi]) + obligation that a is in [lo,hi]."""
+    def float_to_int(q, mode="trunc"):
+        """int(a / k), math.floor(a / k), math.ceil(a / k): integer division with the matching rounding, valid
+        when the float quotient is exact enough.  Side lemma (proved on every run in QF_BVFP over [lo,hi] for
+        each (divisor, mode) used) + obligation that a is in [lo,hi]."""
         n, d = q.n, q.d
         if isinstance(d, EnumVal):
             d = d.v
         if not isinstance(d, int) or isinstance(d, bool) or d <= 0:
             raise Unsupported("float division by a non-constant or non-positive divisor")
         lo, hi = E.fp_range
+        E.fp_uses.append((d, mode))
         if isinstance(n, (int, bool)):
             n = int(n)
             if not lo <= n <= hi:
                 raise Unsupported("float division operand outside the lemma range")
-            E.fp_uses.append(d)
+            if mode == "floor":
+                return n // d
+            if mode == "ceil":
+                return -((-n) // d)
             a = abs(n) // d
             return a if n >= 0 else -a
         e = zi(n)
         E.require(mk_bool(z3.And(e >= lo, e <= hi)), "float division operand outside the lemma range")
-        E.fp_uses.append(d)
         E.assumptions_used.add("float-division-lemma")
+        if mode == "floor":
+            return mk_int(e / d)
+        if mode == "ceil":
+            return mk_int(-((-e) / d))
         return mk_int(z3.If(e >= 0, e / d, -((-e) / d)))
 
+    def float_trunc(q):
+        return float_to_int(q, "trunc")
+
+    E.float_to_int = float_to_int
     E.float_trunc = float_trunc
     B["float"] = Native(lambda *a: (_ for _ in ()).throw(Unsupported("float()")), "float")
     B["round"] = Native(lambda *a: (_ for _ in ()).throw(Unsupported("round()")), "round")
@@ -800,6 +812,29 @@ def install_stubs(E):
         return m
 
     S["random"] = mk_random
+
+    def mk_math(E_):
+        m = Module("math")
+        m.ns["__name__"] = "math"
+
+        def rounding(mode):
+            def f(x):
+                if isinstance(x, FloatQuot):
+                    return E_.float_to_int(x, mode)
+                if isinstance(x, EnumVal):
+                    x = x.v
+                if isinstance(x, (int, SymInt)) and not isinstance(x, bool):
+                    return x
+                if isinstance(x, (bool, SymBool)):
+                    return mk_int(zi(x))
+                raise Unsupported("math.%s of %s" % (mode, type(x).__name__))
+            return f
+        m.ns["ceil"] = Native(rounding("ceil"), "math.ceil")
+        m.ns["floor"] = Native(rounding("floor"), "math.floor")
+        m.ns["trunc"] = Native(rounding("trunc"), "math.trunc")
+        return m
+
+    S["math"] = mk_math
 
 
 # ====================================================================================== harness API
